@@ -466,6 +466,56 @@ func genStream(rg *rng, cfg *genCfg, st genStats) *stream {
 				gmn = p.known[1+rg.intn(len(p.known)-1)]
 			}
 			d := genDefinition(rg, cfg, st, l, gmn)
+			if rg.chance(1, 8) && len(defs) > 1 {
+				// a NEAR-IDENTICAL redefinition of a local type that is already defined: the same message and
+				// fields with exactly one thing changed (developer fields dropped or added, byte order flipped,
+				// one field dropped, one string/array field resized) -- the latest definition must win entirely
+				var ls []byte
+				for k := range defs {
+					if defs[k].Gmn != 0 {
+						ls = append(ls, k)
+					}
+				}
+				for a := 0; a < len(ls); a++ {
+					for b := a + 1; b < len(ls); b++ {
+						if ls[b] < ls[a] {
+							ls[a], ls[b] = ls[b], ls[a]
+						}
+					}
+				}
+				if len(ls) > 0 {
+					old := defs[ls[rg.intn(len(ls))]]
+					nd := *old
+					nd.Fields = append([]fieldDefS{}, old.Fields...)
+					nd.Devs = append([]devDefS{}, old.Devs...)
+					switch rg.intn(4) {
+					case 0:
+						if nd.DevFlg {
+							nd.DevFlg, nd.Devs = false, nil
+						} else {
+							nd.DevFlg = true
+							nd.Devs = []devDefS{{Num: byte(rg.intn(256)), Size: byte(1 + rg.intn(8)), Idx: 0}}
+						}
+					case 1:
+						nd.Arch ^= 1
+					case 2:
+						if len(nd.Fields) > 1 {
+							k := rg.intn(len(nd.Fields))
+							nd.Fields = append(nd.Fields[:k], nd.Fields[k+1:]...)
+						}
+					default:
+						for k := range nd.Fields {
+							if types.Base(nd.Fields[k].Btype) == types.BaseString && nd.Fields[k].Size > 1 {
+								nd.Fields[k].Size--
+								break
+							}
+						}
+					}
+					d = &nd
+					l = nd.Local
+					st["near_identical_redefinitions"]++
+				}
+			}
 			s.Records = append(s.Records, *d)
 			defs[l] = d
 			st["definitions"]++
